@@ -1275,7 +1275,7 @@ func main() {
 	var revN, revClean, revFaulty, revOutside, revSites int64
 	revDist := map[string]int64{}
 	{
-		nrev := gen.C06RevMinimalCount + 456
+		nrev := gen.C06RevMinimalCount + 856
 		if f.Thorough() {
 			nrev = gen.C06RevMinimalCount + 7856
 		}
